@@ -1378,6 +1378,10 @@ func (p *Parser) parseArrayLiteral() (array ArrayExpr) {
 			}
 			prevComma = true
 			p.next()
+		} else if !prevComma {
+			// elements are separated by commas
+			p.fail("array literal", CommaToken, CloseBracketToken)
+			return
 		} else {
 			spread := p.tt == EllipsisToken
 			if spread {
